@@ -26,7 +26,8 @@ KeyOrderAll == <<"seedname", "num_wann", "num_bands", "dis_froz_max", "dis_win_m
 AllKeys == {KeyOrderAll[n] : n \in 1..Len(KeyOrderAll)} \cup {"nothere"}
 Other == "copy"               \* the other seedname
 
-Entry0(op) == [op |-> op, id |-> "", err |-> ""]
+(* chg: the entries the action puts into the dictionary (None for a deleted key) - what the harness hands to the real object *)
+Entry0(op) == [op |-> op, id |-> "", err |-> "", chg |-> <<>>]
 PresetIs(p) == CASE p = 1 -> cu = "none" /\ at = "frac" /\ kp = "2x1x1" /\ mpp = "right" /\ pj = "two" /\ pset = "A"
                  [] p = 2 -> cu = "bohr" /\ at = "cart_bohr" /\ kp = "3x1x2" /\ mpp = "absent" /\ pj = "absent" /\ pset = "B"
 OInit == /\ style = Canon /\ pc = "done"
@@ -35,11 +36,11 @@ OInit == /\ style = Canon /\ pc = "done"
          /\ data = rd.data /\ prev = rd.data /\ disk = <<>> /\ loaded = Err("nothing loaded") /\ target = ""
 Room == Len(hist) <= MAXLEN
 DoSet(id) == /\ Room /\ data' = SetItem(data, PoolKey(id), PoolVal(id)) /\ prev' = data
-             /\ hist' = Append(hist, [Entry0("set") EXCEPT !.id = id]) /\ UNCHANGED <<disk, loaded, target>>
+             /\ hist' = Append(hist, [Entry0("set") EXCEPT !.id = id, !.chg = (PoolKey(id) :> PoolVal(id))]) /\ UNCHANGED <<disk, loaded, target>>
 DoDel(k) == /\ Room /\ data' = DelItem(data, k) /\ prev' = data
-            /\ hist' = Append(hist, [Entry0("del") EXCEPT !.id = k]) /\ UNCHANGED <<disk, loaded, target>>
+            /\ hist' = Append(hist, [Entry0("del") EXCEPT !.id = k, !.chg = (k :> VNone)]) /\ UNCHANGED <<disk, loaded, target>>
 DoUpdate(id) == /\ Room /\ data' = Update(data, UpdDict(id)) /\ prev' = data
-                /\ hist' = Append(hist, [Entry0("update") EXCEPT !.id = id]) /\ UNCHANGED <<disk, loaded, target>>
+                /\ hist' = Append(hist, [Entry0("update") EXCEPT !.id = id, !.chg = UpdDict(id)]) /\ UNCHANGED <<disk, loaded, target>>
 (* write(seedname = t) and WIN.from_w90_file(t) *)
 DoWriteRead(t) ==
    /\ Room /\ Writable(data)
